@@ -93,12 +93,20 @@ class Rig:
         async def slow_last(event):
             await asyncio.sleep(0)
             raise ValueError('foreign coroutine listener failed')
-        self._noisy = [raising, slow_first, slow_last]      # the bus holds listeners weakly
+        async def raising_async(event):
+            raise RuntimeError('foreign coroutine listener failed at once')
+        self._noisy = [raising, slow_first, slow_last, raising_async]      # the bus holds listeners weakly
         for cls in (E.MessageReceivedEvent, E.ConnectionStateChangedEvent, E.PeerInitializedEvent,
-                    E.SessionInitializedEvent, E.SessionDestroyedEvent):
+                    E.SessionInitializedEvent, E.SessionDestroyedEvent, E.SearchRequestReceivedEvent):
             self.bus.register(cls, raising, priority=50)
             self.bus.register(cls, slow_first, priority=10)
+            self.bus.register(cls, raising_async, priority=20)
             self.bus.register(cls, slow_last, priority=150)
+
+    def advance(self, seconds: float):
+        """let virtual time pass (timers that become due run), then settle"""
+        self.loop.advance(seconds)
+        self.settle()
 
     def replace_settings_objects(self):
         """the debug / users settings objects are replaced as a whole (same values): managers must read through Settings"""
